@@ -12,6 +12,8 @@ def families : List (List String × (List String → String → Verdict)) := [
   (["proto"], Proto.handle),
   (["frame", "resp"], Frame.handle),
   (["cmd"], Cmd.handle),
+  (["song"], Song.handle),
+  (["filter"], Filter.handle),
 ]
 
 def dispatch (line : String) : String :=
@@ -30,10 +32,6 @@ def dispatch (line : String) : String :=
     match families.find? (fun f => f.1.contains fam) with
     | some f => f.2 toks impl
     | none => bad "family"
-    if fam == "tag" || fam == "sub" then Tags.handle toks impl
-    else if fam == "song" then Song.handle toks impl
-    else if fam == "filter" then Filter.handle toks impl
-    else bad "family"
   v.render
 
 partial def loop (h : IO.FS.Stream) (out : IO.FS.Stream) : IO Unit := do
